@@ -66,6 +66,9 @@ pub struct Sim {
     pub wall_last_ns: u128,
     pub event_dump: Option<Vec<String>>,
     pub sets_offered: Vec<(u32, usize, &'static str)>,
+    /// Options the manifest advertises as dynamic (lightningd may then send setconfig).
+    pub dynamic_options: Vec<String>,
+    pub setconfig_pending: bool,
     pub stop_on_violation_of: Option<&'static str>,
     /// Abstract states visited / transitions taken (DESIGN.md section 8).
     pub abs_states: std::collections::HashSet<u64>,
@@ -80,7 +83,8 @@ enum End {
 
 impl Sim {
     pub fn new(seed: u64, cfg: RunCfg) -> Self {
-        let node = SimNode::new(cfg.start_height);
+        let mut node = SimNode::new(cfg.start_height);
+        node.pay_placeholder_preimage = cfg.pay_placeholder;
         Sim {
             seed,
             content_seed: mix(seed, 0xC0_47E47),
@@ -104,6 +108,8 @@ impl Sim {
                 frozen_at_step: None,
                 comp_pending_blocks: Vec::new(),
                 catchup: None,
+                step_malformed_notification: false,
+                malformed_notifications_sent: 0,
                 op_kind: "boot",
                 step_delivers_only_nontrampoline: false,
                 step_delivered_calls: Vec::new(),
@@ -121,6 +127,8 @@ impl Sim {
             wall_last_ns: 0,
             event_dump: None,
             sets_offered: Vec::new(),
+            dynamic_options: Vec::new(),
+            setconfig_pending: false,
             stop_on_violation_of: None,
             abs_states: Default::default(),
             abs_trans: Default::default(),
@@ -220,6 +228,7 @@ impl Sim {
         self.w.told_all = 0;
         self.w.getinfo_replies_this_lifetime = 0;
         self.w.init_acked = false;
+        self.w.malformed_notifications_sent = 0;
         self.w.main_result = None;
         self.w.plugin_up = true;
         self.or.on_boot(&self.w);
@@ -282,6 +291,13 @@ impl Sim {
             self.w.told_low_step_start = self.w.told_low;
             self.w.told_all_step_start = self.w.told_all;
             self.w.step_delivered_calls.clear();
+            self.w.step_malformed_notification = matches!(
+                &op,
+                Op::Block {
+                    notify: NotifyMode::Malformed(_),
+                    ..
+                }
+            );
             self.w.step_delivers_only_nontrampoline = false;
             self.w.step_has_rpc_stimulus = false;
             if let Op::Multi { ops } = &op {
@@ -522,6 +538,13 @@ impl Sim {
             m.insert("trampoline-no-self-route-hints".into(), json!(c.no_self_hints));
             m.insert("trampoline-email-subject".into(), json!("Trampoline payment failure"));
             m.insert("trampoline-xpay".into(), json!(c.xpay));
+            if let Some(rj) = &c.raw_json_opts {
+                for (k, v) in rj {
+                    if let Ok(val) = serde_json::from_str::<Value>(v) {
+                        m.insert(k.clone(), val);
+                    }
+                }
+            }
             return Value::Object(m);
         }
         json!({
@@ -608,6 +631,26 @@ impl Sim {
         }
         self.settle().await;
         self.process_events();
+        if self.w.init_acked && !self.dynamic_options.is_empty() {
+            // The manifest invites setconfig for this option: the request must
+            // be answered and must not take the plugin down.
+            let name = self.dynamic_options[0].clone();
+            self.setconfig_pending = true;
+            self.send_msg(
+                &json!({"jsonrpc":"2.0","id":format!("hs:setconfig:{}", lt),"method":"setconfig","params":{"config": name, "val": 61}}),
+                true,
+            );
+            self.settle().await;
+            self.process_events();
+            if self.setconfig_pending {
+                self.or.violate(
+                    &self.w,
+                    "C17",
+                    "setconfig-not-answered",
+                    format!("the manifest advertises option {} as dynamic but a setconfig request for it got no reply", name),
+                );
+            }
+        }
     }
 
     // ------------------------------------------------------------------------
@@ -929,6 +972,26 @@ impl Sim {
                     NotifyMode::Stale(s) => {
                         self.stats.fault("notification-stale");
                         send(self, *s);
+                    }
+                    NotifyMode::Malformed(kind) => {
+                        self.stats.fault("notification-malformed");
+                        if self.w.init_acked {
+                            self.w.malformed_notifications_sent += 1;
+                            let params = match kind % 5 {
+                                0 => json!({"block": {"hash": "00", "height": h}}),
+                                1 => json!({"block_added": {"hash": "00"}}),
+                                2 => json!({"block_added": {"hash": "00", "height": 4294967296u64}}),
+                                3 => json!({"block_added": {"hash": "00", "height": "800000"}}),
+                                _ => json!({}),
+                            };
+                            self.send_msg(
+                                &json!({"jsonrpc":"2.0","method":"block_added","params":params}),
+                                true,
+                            );
+                            let unreleased = seam::stdin_unreleased() as u64;
+                            self.stdin_released = self.stdin_written - unreleased;
+                            self.mark_delivered();
+                        }
                     }
                 }
             }
@@ -1266,7 +1329,21 @@ impl Sim {
                     for n in names {
                         self.log.str(&n);
                     }
+                    self.dynamic_options = v
+                        .pointer("/result/options")
+                        .and_then(|o| o.as_array())
+                        .map(|a| {
+                            a.iter()
+                                .filter(|o| o.get("dynamic").and_then(|d| d.as_bool()) == Some(true))
+                                .filter_map(|o| o.get("name").and_then(|n| n.as_str()))
+                                .map(|s| s.to_string())
+                                .collect()
+                        })
+                        .unwrap_or_default();
                     self.or.on_manifest(&self.w, &v);
+                } else if id.starts_with("hs:setconfig:") {
+                    self.log.str("setconfig-reply");
+                    self.setconfig_pending = false;
                 } else if id.starts_with("hs:init:") {
                     self.log.str("init-ack");
                     self.w.init_acked = true;
@@ -1428,6 +1505,7 @@ fn short_state(s: &RpcState) -> String {
             SimReply::Result(v) => format!("result {}", truncate(&v.to_string(), 120)),
             SimReply::Error { code, message, .. } => format!("error {:?} {}", code, message),
             SimReply::Transport(m) => format!("transport {}", m),
+            SimReply::Codeless(m) => format!("codeless-error {}", m),
         },
         RpcState::Done => "done".into(),
     }
